@@ -130,11 +130,15 @@ func verifBoolIs(label string, got rel.Value, err error, want bool) {
 	verifAssert(label, got.IsTrue() == want)
 }
 
-// verif:bound VerifC14Predicates subject length <=4, pattern length <=3, alphabet {0,1,2}, 3 representations
+// verif:bound VerifC14Predicates subject length <=4 (thorough: <=5), pattern length <=3, alphabet {0,1,2}, 3 representations
 // verif:cover VerifC14Predicates contains-true contains-false prefix-true suffix-true
 func VerifC14Predicates() {
 	rep := verifChoice(3)
-	n := verifChoice(5)
+	extra := 0
+	if verifThorough() {
+		extra = 1
+	}
+	n := verifChoice(5 + extra)
 	m := verifChoice(4)
 	s := verifSeq(n)
 	p := verifSeq(m)
@@ -167,11 +171,15 @@ func VerifC14Predicates() {
 	}
 }
 
-// verif:bound VerifC14Trim subject length <=3, affix length <=2, alphabet {0,1,2}, 3 representations
+// verif:bound VerifC14Trim subject length <=3 (thorough: <=4), affix length <=2, alphabet {0,1,2}, 3 representations
 // verif:cover VerifC14Trim trimmed-prefix trimmed-suffix
 func VerifC14Trim() {
 	rep := verifChoice(3)
-	n := verifChoice(4)
+	extra := 0
+	if verifThorough() {
+		extra = 1
+	}
+	n := verifChoice(4 + extra)
 	m := verifChoice(3)
 	s := verifSeq(n)
 	p := verifSeq(m)
